@@ -12,6 +12,7 @@ import (
 	"github.com/codenotary/immudb/embedded/store"
 
 	"verifharness/internal/fw"
+	"verifharness/internal/refmerkle"
 )
 
 // acc collects the observations of one work item and is flushed once.
@@ -22,7 +23,9 @@ type acc struct {
 	dist   map[string]struct{}
 }
 
-func newAcc(c *fw.Ctx) *acc { return &acc{c: c, counts: map[string]int64{}, dist: map[string]struct{}{}} }
+func newAcc(c *fw.Ctx) *acc {
+	return &acc{c: c, counts: map[string]int64{}, dist: map[string]struct{}{}}
+}
 
 func (a *acc) flush() {
 	a.c.Eval(a.evals)
@@ -120,6 +123,12 @@ func (h *hist) legitForward(d *dcase, v2 bool) (bool, string) {
 	if T.BlTxID > 0 && !h.isRealRoot(T.BlRoot) {
 		if d.sID < T.BlTxID {
 			return false, "blroot-is-not-a-root-of-the-real-history/trusted-tx-before-linking-point"
+		}
+		// the trusted tx's own header commits to the tree of its linking point: a target tree that is
+		// not shown (by the independent RFC 9162 verifier) to extend THAT tree contradicts the trusted
+		// state itself; otherwise the deviation lies in leaves after it, which only the linear chain covers
+		if !h.extendsTrustedTree(d) {
+			return false, "blroot-is-not-a-root-of-the-real-history/target-tree-does-not-extend-the-trusted-tx-tree"
 		}
 		return false, "blroot-is-not-a-root-of-the-real-history/trusted-tx-at-or-after-linking-point"
 	}
@@ -345,7 +354,16 @@ func (h *hist) dualItem(c *fw.Ctx, a *acc, r *rand.Rand, ops []mop, s, t uint64,
 		}
 		if falsehood != "" {
 			a.count("l1_violation_by_operator|" + name + "|" + sig)
-			c.Violation("store."+name+"/"+falsehood, name+" accepted a false claim ("+falsehood+") after "+sig+": "+shape+"\n"+describeDual(d)+"ledger: alh["+fmt.Sprint(d.sID)+"], alh["+fmt.Sprint(d.tID)+"] = "+h.alhText(d.sID)+", "+h.alhText(d.tID),
+			follow := ""
+			if d.followUp != nil && !v2 {
+				follow = "\n" + d.followUp()
+				if strings.Contains(follow, "ACCEPTED") {
+					a.count("l1_fork_follow_up_accepted")
+				} else {
+					a.count("l1_fork_follow_up_not_accepted")
+				}
+			}
+			c.Violation("store."+name+"/"+falsehood, name+" accepted a false claim ("+falsehood+") after "+sig+": "+shape+"\n"+describeDual(d)+"ledger: alh["+fmt.Sprint(d.sID)+"], alh["+fmt.Sprint(d.tID)+"] = "+h.alhText(d.sID)+", "+h.alhText(d.tID)+follow,
 				map[string][]byte{"history.txt": []byte(h.describeChain()), "case.txt": []byte(describeDual(d))})
 		}
 	}
@@ -375,6 +393,31 @@ func (h *hist) dualItem(c *fw.Ctx, a *acc, r *rand.Rand, ops []mop, s, t uint64,
 		}
 	}
 	return p
+}
+
+// extendsTrustedTree: is the target's tree (BlTxID, BlRoot as claimed) shown to be an
+// extension of the tree the real source header commits to? Equal sizes: equal roots;
+// otherwise the response's consistency proof must satisfy the strict reference verifier
+// (ahtree format: the seed node MTH(D[0:i]) is explicit when i is a power of two).
+func (h *hist) extendsTrustedTree(d *dcase) bool {
+	S, T := h.hdr[d.sID], d.p.TargetTxHeader
+	sb, bl := S.BlTxID, T.BlTxID
+	switch {
+	case sb == 0:
+		return true
+	case sb > bl:
+		return false
+	case sb == bl:
+		return T.BlRoot == h.roots[sb]
+	}
+	p := d.p.ConsistencyProof
+	if sb&(sb-1) == 0 {
+		if len(p) == 0 || p[0] != h.roots[sb] {
+			return false
+		}
+		p = p[1:]
+	}
+	return refmerkle.VerifyConsistencyStrict(p, sb, bl, h.roots[sb], T.BlRoot)
 }
 
 func (h *hist) isRealRoot(x H) bool {
@@ -641,7 +684,9 @@ func (h *hist) lapItem(c *fw.Ctx, a *acc, r *rand.Rand, s, t uint64) {
 				map[string][]byte{"history.txt": []byte(h.describeChain())})
 		}
 	}
-	dd := func(l *lc) *dcase { return &dcase{p: &store.DualProof{LinearAdvanceProof: l.p}, tAlh: l.endAlh, sAlh: l.root} }
+	dd := func(l *lc) *dcase {
+		return &dcase{p: &store.DualProof{LinearAdvanceProof: l.p}, tAlh: l.endAlh, sAlh: l.root}
+	}
 	for _, class := range listClasses {
 		class := class
 		try(class+":LinearProofTerms", func(l *lc) bool {
